@@ -468,6 +468,18 @@ def run(ctx, repo):
         ctx.finding('R2', '%s::HighJumpCompetition._rankj::place numbering' % HJ, HJ, lp.lineno,
                     'place numbering is wrong for %s: it assigns %s where standard competition ranking needs %s (1 for the first, the previous '
                     'place on an equal key, index+1 otherwise)' % bad_rows[0])
+    # the jump-off recall and the drawn / finished decision read has_retired: it must recognise every retired cell ('xr' as well as 'r')
+    from .c02 import retired_reader_by_folding
+    hr_ = J.get('has_retired')
+    if hr_ is not None:
+        ctx.rule('R9', 'has_retired (who is recalled into a jump-off, drawn or not) answers `the last cell ends with r` on every reachable cell, by folding')
+        res_ = retired_reader_by_folding(hr_)
+        if res_ is None:
+            ctx.ok('R9', 'has_retired is true exactly for the cards whose last cell ends with the retirement letter (112 cards folded)')
+        elif res_ != 'unfoldable':
+            ctx.finding('R9', '%s::Jumper.has_retired::retired cell not recognised' % HJ, HJ, hr_.lineno,
+                        'has_retired answers %s for the card %r: a leader who retired after a failure is recalled into the jump-off (the tie is left '
+                        'standing in a state that never ends), or a retirement is seen where there is none' % (res_[1], res_[0]), res_[0])
     # place property hides unplaced athletes
     pl = J.get('place')
     if pl is None:
